@@ -4,6 +4,10 @@ _COMMON = [
 ]
 SPEC = dict(
     harness=['h_str.c'],
+    # second configuration: counts/capacities near the top of the index type against a ledger allocator (harness/h_huge.c)
+    configs=lambda tier: [dict(name='default'), dict(name='huge', harness=['h_huge.c'], hflags=['-DVF_HUGE=6'])],
+    parallel_configs=2,
+    workers={'quick': 16, 'thorough': 32},
     level='exploration',
     memcheck_cases={'thorough': 1600},
     rule='seeded histories of 30-70 operations on two string objects: all append forms (catc/catn/cats/cat and their non-terminating _ twins, catf and '
@@ -30,7 +34,7 @@ SPEC = dict(
          'with the same format and arguments. During a large case the public a_alloc hook points at a wrapper of the default a_alloc_ that fills every grown region with 0xA5 '
          '(fresh pages are zero and ASan pattern-fills only 4096 bytes, so a missing terminator at a large offset would otherwise pass by luck).',
     exhaustive={},
-    require=['state-compared-with-model', 'terminator-after-content-inside-capacity', 'formatted-append-equals-libc-formatter',
+    require=['huge-str-setm', 'huge-str-setm_', 'huge-str-setn', 'huge-str-catf-width', 'state-compared-with-model', 'terminator-after-content-inside-capacity', 'formatted-append-equals-libc-formatter',
              'utf_catc-appends-encoding-plus-nul', 'getc-returns-last-byte', 'getn-returns-tail-bytes',
              'trim-removes-exactly-the-set-members-at-the-ends', 'setn-bounds', 'setm-capacity', 'swap',
              'exit-hands-over-terminated-content', 'cmp-orders-like-bytewise-lexicographic-then-length', 'accessors', 'ctor-dtor-on-caller-storage',
